@@ -9,6 +9,8 @@ import (
 	"sort"
 	"strings"
 
+	"golang.org/x/tools/go/cfg"
+
 	"verif/checker/internal/core"
 	"verif/checker/internal/gee"
 )
@@ -703,4 +705,202 @@ func ruleNoReturnBeforeStateGuard(c *core.Ctx) {
 			}
 		}
 	}
+}
+
+// P6b: a decoder that has failed keeps failing. yaml.v3's (and encoding/json's) Decoder returns the same error
+// on every later call once the input is malformed — it never reaches io.EOF. A condition-less loop around
+// Decode must therefore leave the loop on every path on which Decode returned a non-nil error; a path that goes
+// round again spins forever, appending the same diagnostic until memory runs out.
+func ruleDecodeLoopLeavesOnError(c *core.Ctx) {
+	const rule = "P6b"
+	c.Rule(rule, "front end: inside a `for { … }` loop around (*yaml.Decoder).Decode / (*json.Decoder).Decode, every path on which the call returned a non-nil error leaves the loop before the next iteration", 1)
+	n := 0
+	for _, d := range c.AllDecls() {
+		p := c.DeclPkg(d)
+		if p == nil || d.Body == nil || !strings.HasPrefix(p.PkgPath, core.Mod) {
+			continue
+		}
+		info := p.TypesInfo
+		var fc *core.FuncCFG
+		ast.Inspect(d.Body, func(x ast.Node) bool {
+			loop, ok := x.(*ast.ForStmt)
+			if !ok || loop.Cond != nil {
+				return true
+			}
+			var call *ast.CallExpr
+			var errObj types.Object
+			ast.Inspect(loop.Body, func(y ast.Node) bool {
+				if _, isLit := y.(*ast.FuncLit); isLit {
+					return false
+				}
+				if as, ok := y.(*ast.AssignStmt); ok && len(as.Rhs) == 1 {
+					if ce, ok := ast.Unparen(as.Rhs[0]).(*ast.CallExpr); ok {
+						if f := core.Callee(info, ce); f != nil && (core.FullName(f) == "(gopkg.in/yaml.v3.Decoder).Decode" || core.FullName(f) == "(encoding/json.Decoder).Decode") {
+							call = ce
+							errObj = identObj(info, as.Lhs[len(as.Lhs)-1])
+						}
+					}
+				}
+				return true
+			})
+			if call == nil || errObj == nil {
+				return true
+			}
+			n++
+			key := c.FuncName(d) + "/for { Decode }"
+			if fc == nil {
+				fc = core.NewCFG(d.Body, info)
+			}
+			decodeBlock := fc.BlockOf(call)
+			inside := func(b *cfg.Block) bool {
+				if b.Stmt != nil {
+					return loop.Body.Pos() <= b.Stmt.Pos() && b.Stmt.End() <= loop.Body.End()
+				}
+				for _, nd := range b.Nodes {
+					if nd.Pos() < loop.Body.Pos() || nd.End() > loop.Body.End() {
+						return false
+					}
+				}
+				return len(b.Nodes) > 0
+			}
+			// the branches on which the error is known to be non-nil
+			var starts []*cfg.Block
+			ast.Inspect(loop.Body, func(y ast.Node) bool {
+				is, ok := y.(*ast.IfStmt)
+				if !ok {
+					return true
+				}
+				o, neq, ok := core.IsNilTest(info, is.Cond)
+				if !ok || o != errObj {
+					return true
+				}
+				var br *ast.BlockStmt
+				if neq {
+					br = is.Body
+				} else if eb, ok := is.Else.(*ast.BlockStmt); ok {
+					br = eb
+				}
+				if br != nil && len(br.List) > 0 {
+					if b := fc.BlockOf(br.List[0]); b != nil {
+						starts = append(starts, b)
+					}
+				}
+				return true
+			})
+			if decodeBlock == nil || len(starts) == 0 {
+				c.Undecided(rule, key, loop.Pos(), "cannot find the test of Decode's error inside the loop")
+				return true
+			}
+			bad := false
+			seen := map[int32]bool{}
+			var walk func(b *cfg.Block)
+			walk = func(b *cfg.Block) {
+				for _, s := range b.Succs {
+					if s == decodeBlock {
+						bad = true
+						return
+					}
+					if seen[s.Index] || !inside(s) {
+						continue
+					}
+					seen[s.Index] = true
+					walk(s)
+				}
+			}
+			for _, s := range starts {
+				if s == decodeBlock {
+					bad = true
+				}
+				seen[s.Index] = true
+				walk(s)
+			}
+			c.Check(!bad, rule, key, loop.Pos(), "every path with a non-nil Decode error leaves the loop",
+				"a path on which Decode returned an error goes round the loop again: the decoder returns the same error on every later call (never io.EOF), so a file with a YAML syntax error makes yardl spin and allocate without bound")
+			return true
+		})
+	}
+	if n == 0 {
+		c.Undecided(rule, "decode loops", 0, "no `for {}` loop around a Decoder.Decode call found")
+	}
+}
+
+// V7: a validation pass sees the whole environment. Imported packages and previous versions are validated through
+// the same Environment (their namespaces are flattened into it); a pass whose traversal starts at a part of it —
+// the top-level namespace, the first namespace — leaves the rule it implements unchecked for every imported package,
+// and generation then proceeds on a model that should have been rejected.
+func rulePassesWalkWholeEnvironment(c *core.Ctx) {
+	const rule = "V7"
+	c.Rule(rule, "pkg/dsl: every function with the ValidationPass signature starts its traversal (Visit / VisitWithContext / Rewrite / RewriteWithContext, or a loop over Namespaces) at its *Environment parameter itself, never at a part of it", 12)
+	p := c.Pkg("pkg/dsl")
+	if p == nil {
+		c.Undecided(rule, "anchor/pkg/dsl", 0, "package not found")
+		return
+	}
+	info := p.TypesInfo
+	tn, _ := p.Types.Scope().Lookup("ValidationPass").(*types.TypeName)
+	if tn == nil {
+		c.Undecided(rule, "anchor/ValidationPass", 0, "type not found")
+		return
+	}
+	for _, d := range c.AllDecls() {
+		if c.DeclPkg(d) != p || d.Body == nil || d.Recv != nil {
+			continue
+		}
+		f, _ := info.Defs[d.Name].(*types.Func)
+		if f == nil || !types.Identical(f.Type(), tn.Type().Underlying()) {
+			continue
+		}
+		params := paramObjs(info, d)
+		if len(params) == 0 || params[0] == nil {
+			continue
+		}
+		env := params[0]
+		// loop variables ranging over env.Namespaces
+		nsVars := map[types.Object]bool{}
+		ast.Inspect(d.Body, func(n ast.Node) bool {
+			if rs, ok := n.(*ast.RangeStmt); ok {
+				if se, ok := ast.Unparen(rs.X).(*ast.SelectorExpr); ok && se.Sel.Name == "Namespaces" && identObj(info, se.X) == env {
+					if o := identObj(info, rs.Value); o != nil {
+						nsVars[o] = true
+					}
+				}
+			}
+			return true
+		})
+		nRoots := 0
+		var walk func(n ast.Node, depth int)
+		walk = func(n ast.Node, depth int) {
+			ast.Inspect(n, func(x ast.Node) bool {
+				if _, isLit := x.(*ast.FuncLit); isLit && x != n {
+					return false // traversal calls inside the callback continue a walk, they do not start one
+				}
+				ce, ok := x.(*ast.CallExpr)
+				if !ok || len(ce.Args) == 0 {
+					return true
+				}
+				callee := core.Callee(info, ce)
+				if callee == nil || callee.Pkg() != p.Types {
+					return true
+				}
+				nm := callee.Name()
+				if !(strings.HasPrefix(nm, "Visit") || strings.HasPrefix(nm, "Rewrite")) || info.Selections[selOf(ce)] != nil {
+					return true
+				}
+				nRoots++
+				root := ast.Unparen(ce.Args[0])
+				o := identObj(info, root)
+				key := d.Name.Name + "/" + nm + "(" + types.ExprString(root) + ")"
+				c.Check(o != nil && (o == env || nsVars[o]), rule, key, ce.Pos(), "the traversal starts at the environment (or runs for every namespace of it)",
+					"the pass starts its traversal at `"+types.ExprString(root)+"`, a part of the environment: definitions of imported packages (and whatever else lies outside that part) are never checked by this pass")
+				return true
+			})
+		}
+		walk(d.Body, 0)
+		_ = nRoots
+	}
+}
+
+func selOf(ce *ast.CallExpr) *ast.SelectorExpr {
+	se, _ := ast.Unparen(ce.Fun).(*ast.SelectorExpr)
+	return se
 }
